@@ -225,15 +225,19 @@ structure JoinArgs extends TableArgs where
   outSimScore : Bool := true
   deriving Repr
 
+/-- the validation block at the top of every `*_join_py` (in code order).  `mname` is the measure
+    name handed to `validate_threshold` / `validate_comp_op_for_sim_measure`; edit distance
+    additionally insists on a q-gram tokenizer. -/
+def validateJoin (mname : String) (a : JoinArgs) (t : TokObj) : Except PyErr (Frame × Frame) := do
+  let (l, r) ← validateTablesAttrs a.toTableArgs
+  if mname == "EDIT_DISTANCE" then validateTokenizerForSimMeasure t .editDistance else validateTokenizer t
+  genCheck (Gen.validate_threshold a.threshold (.str mname))
+  genCheck (Gen.validate_comp_op_for_sim_measure (.str a.compOp) (.str mname))
+  validateOutAndKeys a.toTableArgs l r
+  return (l, r)
+
 def setSimJoinPy (m : Measure) (a : JoinArgs) (t : TokObj) (toks : TokFn) (cpu : Int) : Outcome :=
-  let pre : Except PyErr (Frame × Frame) := do
-    let (l, r) ← validateTablesAttrs a.toTableArgs
-    validateTokenizer t
-    genCheck (Gen.validate_threshold a.threshold (.str m.name))
-    genCheck (Gen.validate_comp_op_for_sim_measure (.str a.compOp) (.str m.name))
-    validateOutAndKeys a.toTableArgs l r
-    return (l, r)
-  match pre with
+  match validateJoin m.name a t with
   | .error e => { result := .error e, flagAfter := t.returnSet }
   | .ok (l, r) =>
     withFlag t true (runTables a.toTableArgs l r a.allowMissing a.outSimScore cpu
@@ -243,14 +247,7 @@ def setSimJoinPy (m : Measure) (a : JoinArgs) (t : TokObj) (toks : TokFn) (cpu :
           (toks true) lArr ch))
 
 def overlapCoefficientJoinPy (a : JoinArgs) (t : TokObj) (toks : TokFn) (cpu : Int) : Outcome :=
-  let pre : Except PyErr (Frame × Frame) := do
-    let (l, r) ← validateTablesAttrs a.toTableArgs
-    validateTokenizer t
-    genCheck (Gen.validate_threshold a.threshold (.str "OVERLAP_COEFFICIENT"))
-    genCheck (Gen.validate_comp_op_for_sim_measure (.str a.compOp) (.str "OVERLAP_COEFFICIENT"))
-    validateOutAndKeys a.toTableArgs l r
-    return (l, r)
-  match pre with
+  match validateJoin "OVERLAP_COEFFICIENT" a t with
   | .error e => { result := .error e, flagAfter := t.returnSet }
   | .ok (l, r) =>
     withFlag t true (runTables a.toTableArgs l r a.allowMissing a.outSimScore cpu
@@ -259,14 +256,7 @@ def overlapCoefficientJoinPy (a : JoinArgs) (t : TokObj) (toks : TokFn) (cpu : I
 
 /-- `edit_distance_join_py`; `threshold = int(floor(threshold))` after validation -/
 def editDistanceJoinPy (a : JoinArgs) (t : TokObj) (toks : TokFn) (cpu : Int) : Outcome :=
-  let pre : Except PyErr (Frame × Frame) := do
-    let (l, r) ← validateTablesAttrs a.toTableArgs
-    validateTokenizerForSimMeasure t .editDistance
-    genCheck (Gen.validate_threshold a.threshold (.str "EDIT_DISTANCE"))
-    genCheck (Gen.validate_comp_op_for_sim_measure (.str a.compOp) (.str "EDIT_DISTANCE"))
-    validateOutAndKeys a.toTableArgs l r
-    return (l, r)
-  match pre with
+  match validateJoin "EDIT_DISTANCE" a t with
   | .error e => { result := .error e, flagAfter := t.returnSet }
   | .ok (l, r) =>
     match PyV.toInt (PyV.floor a.threshold) with
